@@ -17,6 +17,7 @@ import (
 	"github.com/ThreeDotsLabs/watermill/verifhook"
 
 	"wmverif/sched"
+	"wmverif/scripted"
 	"wmverif/tr"
 )
 
@@ -26,7 +27,7 @@ import (
 type gcSub struct {
 	Name        string
 	Topic       string
-	Behav       string // ack | nack1 | nack2 | mutate | slow | neverack | republish:<topic> | peek | stall2 (stalls 1600 ms on its second message)
+	Behav       string // ack | nack1 | nack2 | mutate | slow | neverack | noread (never receives) | republish:<topic> | peek | stall2 (stalls 1600 ms on its second message)
 	Phase       int    // 0 before the publishers, 1 concurrently with them, 2 after they finished
 	CancelAfter int    // cancel the subscription context after that many receipts (0 = never)
 	CancelAt    int    // or in phase: 1 concurrently with the publishers, 2 after them (0 = never)
@@ -60,6 +61,7 @@ type gcScenario struct {
 	Gate       *gcGate
 	Yield      int
 	NoMeta     bool // messages are published without any metadata (an empty, non-nil map)
+	EmptyUUID  bool // every message is published with an empty UUID: that is what the subscribers get
 	SameUUID   bool // every message carries the same UUID (a requeued or re-published copy): they are different messages all the same
 	SharedDec  bool // all decorated subscriptions go through ONE decorator object (per depth) instead of one of their own
 }
@@ -111,12 +113,28 @@ func (x *gcRunner) metaOf(mid string) map[string]string {
 	if x.sc.NoMeta {
 		return map[string]string{}
 	}
+	if x.sc.SameUUID || x.sc.EmptyUUID {
+		// where the UUID does not name the message the trace carries it next to the metadata (compared like the metadata)
+		return map[string]string{"k": mid, "empty": "", "__uuid": map[bool]string{true: "same", false: ""}[x.sc.SameUUID]}
+	}
 	return map[string]string{"k": mid, "empty": ""}
+}
+
+// metaSeen is the metadata of a received message as logged (see metaOf).
+func (x *gcRunner) metaSeen(m *message.Message) map[string]string {
+	if !(x.sc.SameUUID || x.sc.EmptyUUID) {
+		return map[string]string(m.Metadata)
+	}
+	out := map[string]string{"__uuid": x.short(m.UUID)}
+	for k, v := range m.Metadata {
+		out[k] = v
+	}
+	return out
 }
 
 // mid is the harness' name of a message: taken from the UUID, or (scenarios in which all UUIDs are equal) from its metadata
 func (x *gcRunner) mid(m *message.Message) string {
-	if x.sc.SameUUID {
+	if x.sc.SameUUID || x.sc.EmptyUUID {
 		return m.Metadata.Get("k")
 	}
 	return x.short(m.UUID)
@@ -159,6 +177,9 @@ func (x *gcRunner) publishCtx(pname, topic string, n int, batch bool, deadCtx bo
 		if x.sc.SameUUID {
 			msg.UUID = x.prefix + "same"
 		}
+		if x.sc.EmptyUUID {
+			msg.UUID = ""
+		}
 		if deadCtx {
 			dctx, dcancel := context.WithCancel(context.Background())
 			dcancel()
@@ -186,9 +207,9 @@ func (x *gcRunner) publishCtx(pname, topic string, n int, batch bool, deadCtx bo
 			x.emit("panic", "where", "Publish", "val", v)
 			return
 		}
-		x.emit("pubend", "p", pc, "ok", err == nil)
+		x.emit("pubend", "p", pc, "ok", err == nil, "orig", scripted.SettleState(msg))
 		x.reuse(mid, msg)
-		if i == 0 && x.sc.Gate != nil && strings.HasPrefix(x.sc.Gate.ID, "m:") && pname != "g" {
+		if i == 0 && x.sc.Gate != nil && strings.HasPrefix(x.sc.Gate.ID, "m:") && len(x.sc.Gate.ID) <= 3 && pname != "g" { // (gates on one of the first messages)
 			// the call that the gate event made (e.g. a Subscribe) has returned before this publisher goes on:
 			// what it publishes next is then certainly owed to that subscription
 			<-waitOr(x.gateEvDone, HangBound)
@@ -212,8 +233,8 @@ func (x *gcRunner) publishCtx(pname, topic string, n int, batch bool, deadCtx bo
 			x.emit("panic", "where", "Publish", "val", v)
 			return
 		}
-		for _, pc := range pcs {
-			x.emit("pubend", "p", pc, "ok", err == nil)
+		for bi, pc := range pcs {
+			x.emit("pubend", "p", pc, "ok", err == nil, "orig", scripted.SettleState(batchMsgs[bi]))
 		}
 		for bi, msg := range batchMsgs {
 			x.reuse(batchMids[bi], msg)
@@ -250,7 +271,7 @@ func (x *gcRunner) subscribe(s gcSub) {
 			x.mu.Unlock()
 		}
 	}
-	x.emit("substart", "s", s.Name, "topic", s.Topic, "neverack", s.Behav == "neverack" || s.StopReading)
+	x.emit("substart", "s", s.Name, "topic", s.Topic, "neverack", s.Behav == "neverack" || s.Behav == "noread" || s.StopReading)
 	x.mu.Lock()
 	x.cancels[s.Name] = cancel
 	x.recvCnt[s.Name] = cnt
@@ -266,7 +287,7 @@ func (x *gcRunner) subscribe(s gcSub) {
 		x.mu.Lock()
 		x.subOK[s.Name] = s.Decorators
 		x.subTopic[s.Name] = s.Topic
-		x.subLive[s.Name] = s.Behav != "neverack" && !s.StopReading && s.CancelAfter == 0 && s.CancelAt == 0
+		x.subLive[s.Name] = s.Behav != "neverack" && s.Behav != "noread" && !s.StopReading && s.CancelAfter == 0 && s.CancelAt == 0
 		x.expMin[s.Name] = map[string]bool{}
 		x.ackedBy[s.Name] = map[string]bool{}
 		if x.sc.Persistent { // everything published so far on the topic is replayed
@@ -298,11 +319,33 @@ func (x *gcRunner) subscribe(s gcSub) {
 		return
 	}
 	x.subsWg.Add(1)
-	go x.consume(s, ch, cnt, cancel)
+	go x.consume(s, ch, cnt, cancel, ctx.Done())
 }
 
-func (x *gcRunner) consume(s gcSub, ch <-chan *message.Message, cnt *int32, cancel context.CancelFunc) {
+func (x *gcRunner) consume(s gcSub, ch <-chan *message.Message, cnt *int32, cancel context.CancelFunc, _ <-chan struct{}) {
 	defer x.subsWg.Done()
+	if s.Behav == "noread" {
+		// a consumer that does not look at its channel at all while its subscription lives
+		// (it looks at it again only once the Pub/Sub itself has closed it -- seen at the hook in the subscription's Close -- or
+		// after the Pub/Sub's Close has returned; what is buffered then is discarded unlogged)
+		for closedSeen := false; !closedSeen; {
+			x.mu.Lock()
+			closedSeen = x.innerClosed[s.Name]
+			x.mu.Unlock()
+			select {
+			case <-x.closeReturned:
+				closedSeen = true
+			default:
+			}
+			if !closedSeen {
+				time.Sleep(time.Millisecond)
+			}
+		}
+		for range ch {
+		}
+		x.chanClosed(s.Name)
+		return
+	}
 	nacks := map[string]int{}
 	for msg := range ch {
 		mid := x.mid(msg)
@@ -314,7 +357,7 @@ func (x *gcRunner) consume(s gcSub, ch <-chan *message.Message, cnt *int32, canc
 		}
 		x.mu.Unlock()
 		derived := msg.Context().Value(gcMarker{}) == s.Name
-		x.emit("recv", "s", s.Name, "m", mid, "payload", string(msg.Payload), "meta", map[string]string(msg.Metadata),
+		x.emit("recv", "s", s.Name, "m", mid, "payload", string(msg.Payload), "meta", x.metaSeen(msg),
 			"fresh", fresh, "ctxlive", msg.Context().Err() == nil, "derived", derived)
 		n := int(atomic.AddInt32(cnt, 1))
 		if s.StopReading && s.CancelAfter > 0 && n >= s.CancelAfter {
@@ -342,7 +385,7 @@ func (x *gcRunner) consume(s gcSub, ch <-chan *message.Message, cnt *int32, canc
 			select {
 			case m2, ok := <-ch:
 				if ok {
-					x.emit("recv", "s", s.Name, "m", x.mid(m2), "payload", string(m2.Payload), "meta", map[string]string(m2.Metadata),
+					x.emit("recv", "s", s.Name, "m", x.mid(m2), "payload", string(m2.Payload), "meta", x.metaSeen(m2),
 						"fresh", true, "ctxlive", true, "derived", true, "peeked", true)
 				} else {
 					x.emit("ack", "s", s.Name, "m", mid)
@@ -654,7 +697,11 @@ func (x *gcRunner) body() (gateReached bool) {
 		}
 	}
 	if gate != nil {
-		gateReached = gate.Arrived(300 * time.Millisecond)
+		arriveWait := 300 * time.Millisecond
+		if strings.HasPrefix(sc.Gate.ID, "m:") && len(sc.Gate.ID) > 3 {
+			arriveWait = HangBound // a gate deep inside a long stream of messages
+		}
+		gateReached = gate.Arrived(arriveWait)
 		if gateReached {
 			evDone := make(chan struct{})
 			go func() {
@@ -677,7 +724,7 @@ func (x *gcRunner) body() (gateReached bool) {
 	// publishers blocked by never-acking consumers are released by the final Close
 	mayBlock := false
 	for _, sb := range sc.Subs {
-		if sc.Blocking && (sb.Behav == "neverack" || sb.StopReading) {
+		if sc.Blocking && (sb.Behav == "neverack" || sb.Behav == "noread" || sb.StopReading) {
 			mayBlock = true
 		}
 	}
@@ -713,7 +760,7 @@ func (x *gcRunner) body() (gateReached bool) {
 	// a blocking Publish must return once every subscription that does not ack has been cancelled
 	obstacle := false
 	for _, sb := range sc.Subs {
-		if (sb.Behav == "neverack" || sb.StopReading) && sb.CancelAt == 0 && !(sb.CancelAfter > 0 && !sb.StopReading) {
+		if (sb.Behav == "neverack" || sb.Behav == "noread" || sb.StopReading) && sb.CancelAt == 0 && !(sb.CancelAfter > 0 && !sb.StopReading) {
 			obstacle = true
 		}
 	}
@@ -782,6 +829,18 @@ func (x *gcRunner) body() (gateReached bool) {
 	}
 	x.publish("late", "t1", 1, false)
 	x.subscribe(gcSub{Name: "late", Topic: "t1", Behav: "ack"})
+	{
+		// ... whatever the state of the context it is called with
+		dctx, dcancel := context.WithCancel(context.Background())
+		dcancel()
+		var err error
+		p, v := Guarded(func() { _, err = x.g.Subscribe(dctx, "t1") })
+		if p {
+			x.emit("panic", "where", "Subscribe(cancelled context)", "val", v)
+		} else if err == nil {
+			x.emit("latesub-cancelled-ctx", "ok", true)
+		}
+	}
 	x.closePubSub("again", false)
 	return
 }
